@@ -24,9 +24,11 @@ package main
 // child as the reference.  The second way is what exposes shared state that
 // also corrupts sequential use within one process.
 //
-// The property oracle (ok) is: no race report, no crash, every registry read
-// returned what it returns sequentially, and every goroutine's outputs are
-// byte-for-byte those of its solo run.  Outputs are compared in the child
+// The property oracle (ok) is: no race report, no crash, the goroutines did not
+// get stuck (c16Watchdog), every registry read returned what it returns
+// sequentially, every goroutine's outputs are byte-for-byte those of its solo
+// run, and (cases with own_decorations, c16_own.go) every answer a goroutine
+// got about the decorations it registered itself is the one it gets alone.  Outputs are compared in the child
 // (byte-wise, the first differences are reported in full) and shipped to Coq
 // as one 64-bit FNV-1a digest per goroutine and phase.
 
@@ -91,6 +93,14 @@ type C16Spec struct {
 	// spelling, what came back (wrapper type; rendered text on every 8th turn)
 	// is compared with what that exact spelling gives alone
 	Storm int `json:"style_storm,omitempty"`
+	// Own: every goroutine also registers decorations OF ITS OWN, under names
+	// nobody else uses, while the others run (c16_own.go): one right after the
+	// start barrier, Own-1 more after the prologue, and one for every other
+	// table, which is then also rendered in its house style
+	Own int `json:"own_decorations,omitempty"`
+	// StuckAfter: seconds without any render finishing after which the child
+	// looks whether all its goroutines are blocked (default 3)
+	StuckAfter int `json:"stuck_after_s,omitempty"`
 }
 
 // what the worker process reads on stdin
@@ -127,6 +137,14 @@ type C16Result struct {
 	Reference   string         `json:"reference"` // same-process | own-process-per-goroutine
 	ErrTables   int            `json:"tables_recording_errors"`
 	Notes       []string       `json:"notes,omitempty"`
+	// decorations of the goroutines' own
+	OwnOps      [][]c16OwnOp `json:"-"`
+	OwnOpsCoq   []string     `json:"own_ops_coq,omitempty"` // per goroutine, as shipped to Coq (child to parent only)
+	OwnOpsN     int          `json:"own_registry_operations_logged,omitempty"`
+	OwnNames    int          `json:"own_names_registered,omitempty"`
+	OwnLost     []string     `json:"own_registrations_lost,omitempty"`
+	OwnMismatch int          `json:"own_answers_differing_from_alone,omitempty"`
+	Stuck       string       `json:"stuck,omitempty"` // all goroutines blocked: the dump
 }
 
 // ---------------------------------------------------------------- generator of table specs
@@ -424,6 +442,7 @@ func (d *discardCounter) Write(p []byte) (int, error) { d.n += len(p); return le
 // c16Render renders t (owned by the calling goroutine) in one format and
 // returns outcome kind + bytes.  Error messages are not part of it.
 func c16Render(t tabular.Table, f string) string {
+	defer c16Tick()
 	o := capture(func() (string, error) {
 		switch {
 		case f == "csv":
@@ -541,6 +560,7 @@ func c16Storm(spec C16Spec, g int, names []string) (out, labels []string) {
 				return fmt.Sprintf("%T\x00%s", w, s), err
 			})
 			seen[i][o.Kind+"\x00"+string(o.Out)]++
+			c16Tick()
 		}
 	}
 	for i, st := range pal {
@@ -560,17 +580,38 @@ func c16Storm(spec C16Spec, g int, names []string) (out, labels []string) {
 	return out, labels
 }
 
-func c16RunProgramme(spec C16Spec, g int, prog []c16Tab, names, formats []string) (out, labels []string) {
+func c16RunProgramme(spec C16Spec, g int, prog []c16Tab, names, formats []string, salt string, log *c16OwnLog) (out, labels []string) {
+	var own *c16Own
+	var tiny tabular.Table
+	if spec.Own > 0 {
+		own = &c16Own{seed: spec.Seed, g: g, salt: salt, log: log}
+		tiny = c16OwnTinyTable(g)
+		// the very first thing after the start barrier: every goroutine registers
+		out, labels = own.round(tiny, 0)
+	}
 	if c16WantsDecorations(spec) {
-		out, labels = c16Prologue(names)
+		o, l := c16Prologue(names)
+		out, labels = append(out, o...), append(labels, l...)
 		if spec.Storm > 0 {
 			o, l := c16Storm(spec, g, names)
 			out, labels = append(out, o...), append(labels, l...)
 		}
 	}
+	for i := 1; i < spec.Own; i++ {
+		o, l := own.round(tiny, i)
+		out, labels = append(out, o...), append(labels, l...)
+	}
 	for k, ct := range prog {
 		t := tabular.New()
 		ct.Build(t)
+		house := ""
+		if own != nil && (k+g)%2 == 0 {
+			// this table gets a house style, registered before its first render
+			house = own.fresh()
+			d := own.register(house, 2*spec.Own+k)
+			out = append(out, own.lookup(house, d))
+			labels = append(labels, fmt.Sprintf("table %d own name just registered: Named", k))
+		}
 		if ct.SepAdd {
 			t.AddSeparator()
 			rows := t.AllRows()
@@ -590,6 +631,14 @@ func c16RunProgramme(spec C16Spec, g int, prog []c16Tab, names, formats []string
 				out = append(out, c16FailRender(t, i/3+k, (ct.FailW-1)*17))
 				labels = append(labels, fmt.Sprintf("table %d RenderTo a failing destination (#%d)", k, i/3))
 			}
+		}
+		if house != "" {
+			for _, f := range []string{"texttable:", "auto:", "auto:texttable."} {
+				out = append(out, c16Render(t, f+house))
+				labels = append(labels, fmt.Sprintf("table %d format %s<its own house style>", k, f))
+			}
+			out = append(out, c16Render(t, "auto:"+house+".x"))
+			labels = append(labels, fmt.Sprintf("table %d format auto:<its own house style>.x", k))
 		}
 		out = append(out, c16Errors(t))
 		labels = append(labels, fmt.Sprintf("table %d errors held at the end", k))
@@ -650,7 +699,7 @@ func c16Worker() {
 
 	if in.Mode == "solo" {
 		// one goroutine's programme, alone in this process
-		outs, labels := c16RunProgramme(spec, in.Solo, c16Programme(spec, in.Solo), names, formats)
+		outs, labels := c16RunProgramme(spec, in.Solo, c16Programme(spec, in.Solo), names, formats, "solo", nil)
 		os.Stdout.Write(mustJSON(c16SoloOut{Outs: outs, Labels: labels}))
 		return
 	}
@@ -680,10 +729,10 @@ func c16Worker() {
 			var seq2 []string
 			if pristine {
 				seq1[g] = in.Ref[g]
-				seq2, labels[g] = c16RunProgramme(spec, g, progs[g], names, formats)
+				seq2, labels[g] = c16RunProgramme(spec, g, progs[g], names, formats, "alone", nil)
 			} else {
-				seq1[g], labels[g] = c16RunProgramme(spec, g, progs[g], names, formats)
-				seq2, _ = c16RunProgramme(spec, g, progs[g], names, formats)
+				seq1[g], labels[g] = c16RunProgramme(spec, g, progs[g], names, formats, "alone", nil)
+				seq2, _ = c16RunProgramme(spec, g, progs[g], names, formats, "again", nil)
 			}
 			res.Rows[g].Seq1 = c16Digest(seq1[g], spec.Iters)
 			res.Rows[g].Seq2 = c16Digest(seq2, spec.Iters)
@@ -714,13 +763,15 @@ func c16Worker() {
 	start := make(chan struct{})
 	var done int32
 	conc := make([][][]string, spec.G)
+	ownLogs := make([]*c16OwnLog, spec.G)
 	for g := 0; g < spec.G; g++ {
 		wg.Add(1)
+		ownLogs[g] = newC16OwnLog(g)
 		go func(g int) {
 			defer wg.Done()
 			<-start
 			for it := 0; it < spec.Iters; it++ {
-				outs, _ := c16RunProgramme(spec, g, progs[g], names, formats)
+				outs, _ := c16RunProgramme(spec, g, progs[g], names, formats, fmt.Sprintf("conc%d", it), ownLogs[g])
 				conc[g] = append(conc[g], outs)
 			}
 		}(g)
@@ -777,6 +828,7 @@ func c16Worker() {
 			defer rwg.Done()
 			<-start
 			expectL, expectS, expectD := strings.Join(names, "\x00"), strings.Join(styles, "\x00"), warmDecors
+			var prevL, prevS []string
 			for n := 0; atomic.LoadInt32(&done) == 0 || n < 3; n++ {
 				bad := int64(0)
 				var ds []decoration.Decoration
@@ -799,6 +851,23 @@ func c16Worker() {
 					firsts[k] = firstSeen{l, st, ds}
 					expectL, expectS, expectD = l, st, ds
 				}
+				if spec.Own > 0 {
+					// names are being registered meanwhile: the listings may only grow,
+					// and only by the goroutines' own names
+					curL := strings.Split(l, "\x00")
+					if !c16ListingGrows(prevL, curL, names) {
+						bad++
+					}
+					prevL = curL
+					if k%2 == 1 {
+						curS := strings.Split(st, "\x00")
+						if !c16ListingGrows(prevS, curS, styles) {
+							bad++
+						}
+						prevS = curS
+					}
+					l, st = expectL, expectS
+				}
 				if l != expectL {
 					bad++
 				}
@@ -819,13 +888,56 @@ func c16Worker() {
 			}
 		}(k)
 	}
+	var joined int32
+	go c16Watchdog(spec, &joined)
 	close(start)
 	wg.Wait()
 	atomic.StoreInt32(&done, 1)
 	rwg.Wait()
+	atomic.StoreInt32(&joined, 1)
+	// the goroutines' own decorations: after the join every name holds what its
+	// goroutine registered last and is listed; the logs go to Coq
+	if spec.Own > 0 {
+		listed := map[string]bool{}
+		for _, n := range decoration.RegisteredDecorationNames() {
+			listed[n] = true
+		}
+		res.OwnOps = make([][]c16OwnOp, spec.G)
+		for g, lg := range ownLogs {
+			res.OwnOps[g] = lg.ops
+			res.OwnNames += len(lg.order)
+			for _, n := range lg.order {
+				what := ""
+				if d := decoration.Named(n); d == decoration.EmptyDecoration {
+					what = "is unknown"
+				} else if d != lg.final[n] {
+					what = "holds another decoration than the one registered last"
+				} else if !listed[n] {
+					what = "is not listed"
+				}
+				if what != "" {
+					res.RegMismatch++
+					if len(res.OwnLost) < 6 {
+						res.OwnLost = append(res.OwnLost, fmt.Sprintf("after the join, the name %q registered by goroutine %d %s", n, g, what))
+					}
+				}
+			}
+			res.OwnMismatch += c16OwnJudge(lg.ops)
+			res.OwnOpsCoq = append(res.OwnOpsCoq, c16OwnOpsCoq(lg.ops))
+			res.OwnOpsN += len(lg.ops)
+		}
+	}
 	if spec.ColdFirst {
 		soloPhase()
 		finalL, finalS := strings.Join(decoration.RegisteredDecorationNames(), "\x00"), strings.Join(auto.ListStyles(), "\x00")
+		if spec.Own > 0 {
+			// the listings have grown by the goroutines' own names; the readers'
+			// first answers are compared on the built-in names
+			finalL, finalS = c16OnlyBase(finalL, names), c16OnlyBase(finalS, styles)
+			for k := range firsts {
+				firsts[k].listing, firsts[k].styles = c16OnlyBase(firsts[k].listing, names), c16OnlyBase(firsts[k].styles, styles)
+			}
+		}
 		for k, f := range firsts {
 			if f.listing != finalL || (k%2 == 1 && f.styles != finalS) {
 				res.RegMismatch++
@@ -839,7 +951,7 @@ func c16Worker() {
 		if finalL != strings.Join(names, "\x00") {
 			res.Notes = append(res.Notes, fmt.Sprintf("the registry lists %q, the cold cases use the documented built-in names %q", strings.Split(finalL, "\x00"), names))
 		}
-	} else if strings.Join(decoration.RegisteredDecorationNames(), "\x00") != strings.Join(names, "\x00") {
+	} else if now := strings.Join(decoration.RegisteredDecorationNames(), "\x00"); (spec.Own == 0 && now != strings.Join(names, "\x00")) || c16OnlyBase(now, names) != strings.Join(names, "\x00") {
 		res.RegMismatch++
 	}
 	compare()
@@ -872,6 +984,7 @@ type c16Obs struct {
 	Crashed    bool        `json:"crashed"`
 	ExitCode   int         `json:"exit_code"`
 	Report     string      `json:"report,omitempty"` // race detector / runtime output of the child
+	Stuck      bool        `json:"stuck"`
 	Result     *C16Result  `json:"result,omitempty"`
 	Attempts   int         `json:"attempts"`
 	Facts      interface{} `json:"facts,omitempty"`
@@ -968,9 +1081,14 @@ func c16Child(spec C16Spec) (obs c16Obs) {
 	if json.Unmarshal(so, &res) == nil && len(res.Rows) > 0 {
 		obs.Result = &res
 	}
-	obs.Crashed = obs.Result == nil || (obs.ExitCode != 0 && obs.ExitCode != 66)
+	obs.Stuck = obs.ExitCode == 67 && obs.Result != nil && obs.Result.Stuck != ""
+	obs.Crashed = obs.Result == nil || (obs.ExitCode != 0 && obs.ExitCode != 66 && !obs.Stuck)
 	if obs.Race || obs.Crashed {
 		obs.Report = clip(soloRace+stderr, 6000)
+	}
+	if obs.Stuck {
+		obs.Report = clip(obs.Result.Stuck, 6000)
+		obs.Result.Stuck = "see report"
 	}
 	return obs
 }
@@ -981,6 +1099,10 @@ func c16Sig(o c16Obs) string {
 		return "data-race"
 	case o.Crashed:
 		return "worker-crashed"
+	case o.Stuck:
+		return "goroutines-stuck"
+	case o.Result != nil && (o.Result.OwnMismatch > 0 || len(o.Result.OwnLost) > 0):
+		return "own-registration-lost"
 	case o.Result != nil && o.Result.NMismatch > 0:
 		return "concurrent-output-differs"
 	case o.Result != nil && o.Result.RegMismatch > 0:
@@ -1025,7 +1147,12 @@ func c16RunCase(spec C16Spec) CaseOut {
 			outcomeTags = append(outcomeTags, "solo-outcome="+k)
 		}
 	}
-	term := fmt.Sprintf("(CRun %s %s %s %s %s)", cqNat(spec.G), cqBool(obs.Race), cqBool(obs.Crashed), cqNat(regmis), cqList(rows))
+	owns := "[]"
+	if obs.Result != nil && len(obs.Result.OwnOpsCoq) > 0 {
+		owns = "[" + strings.Join(obs.Result.OwnOpsCoq, ";\n   ") + "]%N"
+		obs.Result.OwnOpsCoq = nil
+	}
+	term := fmt.Sprintf("(CRun %s %s %s %s %s %s %s)", cqNat(spec.G), cqBool(obs.Race), cqBool(obs.Crashed), cqBool(obs.Stuck), cqNat(regmis), cqList(rows), owns)
 	fclass := "all-classes"
 	if len(spec.Formats) > 0 {
 		fclass = strings.Join(spec.Formats, "+")
@@ -1033,16 +1160,16 @@ func c16RunCase(spec C16Spec) CaseOut {
 	tags := append([]string{"kind=run", fmt.Sprintf("goroutines=%d", spec.G), fmt.Sprintf("gomaxprocs=%d", spec.Procs),
 		fmt.Sprintf("readers=%d", spec.Readers), fmt.Sprintf("tables-per-goroutine=%d", spec.Tables), "formats=" + fclass,
 		fmt.Sprintf("every-table-in-every-format=%v", spec.Full), fmt.Sprintf("cold-start=%v", spec.ColdFirst), fmt.Sprintf("reference-in-own-process=%v", spec.Pristine),
-		fmt.Sprintf("tall-tables=%d", spec.Tall), fmt.Sprintf("style-storm=%v", spec.Storm > 0), fmt.Sprintf("race=%v", obs.Race), fmt.Sprintf("race-detector=%v", obs.RaceDetect)}, outcomeTags...)
+		fmt.Sprintf("tall-tables=%d", spec.Tall), fmt.Sprintf("style-storm=%v", spec.Storm > 0), fmt.Sprintf("own-decorations-registered-concurrently=%v", spec.Own > 0), fmt.Sprintf("race=%v", obs.Race), fmt.Sprintf("race-detector=%v", obs.RaceDetect)}, outcomeTags...)
 	if obs.Result != nil && obs.Result.ErrTables > 0 {
 		tags = append(tags, "tables-recording-errors")
 	}
 	return CaseOut{
 		Coq:        term,
 		Desc:       obs,
-		Size:       spec.G*spec.Tables*spec.Iters*(1+spec.MaxRows*spec.MaxCells) + spec.Readers,
+		Size:       spec.G*spec.Tables*spec.Iters*(1+spec.MaxRows*spec.MaxCells) + spec.Readers + spec.G*spec.Own,
 		Tags:       tags,
-		Key:        fmt.Sprintf("%d/%d/%d/%d/%d/%d/%s/%v/%v/%s", spec.Seed, spec.G, spec.Procs, spec.Tables, spec.Iters, spec.Readers, fclass, spec.ColdFirst, spec.Pristine, obs.Sig) + fmt.Sprintf("/tall%d/storm%d", spec.Tall, spec.Storm),
+		Key:        fmt.Sprintf("%d/%d/%d/%d/%d/%d/%s/%v/%v/%s", spec.Seed, spec.G, spec.Procs, spec.Tables, spec.Iters, spec.Readers, fclass, spec.ColdFirst, spec.Pristine, obs.Sig) + fmt.Sprintf("/tall%d/storm%d/own%d", spec.Tall, spec.Storm, spec.Own),
 		Nontrivial: spec.G >= 2 && renders > 0,
 	}
 }
@@ -1106,6 +1233,7 @@ func c16Shrink(raw json.RawMessage) []json.RawMessage {
 	var out []json.RawMessage
 	add := func(c C16Spec) {
 		c.Repeat = 3
+		c.StuckAfter = 2
 		out = append(out, mustJSON(c))
 	}
 	if s.G > 2 {
@@ -1135,6 +1263,19 @@ func c16Shrink(raw json.RawMessage) []json.RawMessage {
 		c = s
 		c.Tables, c.Iters, c.MaxRows, c.MaxCells, c.Tall = 1, 1, 1, 1, 0 // the storm and little else
 		add(c)
+	}
+	if s.Own > 0 {
+		c := s
+		c.Own = 0
+		add(c)
+		c = s
+		c.Tables, c.Iters, c.MaxRows, c.MaxCells, c.Tall, c.Storm = 1, 1, 1, 1, 0, 0 // the own decorations and little else
+		add(c)
+		if s.Own > 2 {
+			c = s
+			c.Own = (s.Own + 1) / 2
+			add(c)
+		}
 	}
 	if s.Tall > 0 {
 		c := s
@@ -1179,6 +1320,8 @@ func init() {
 			"assumed of the standard library: sync and sync/atomic types synchronise, and the methods of *strings.Replacer and of *regexp.Regexp (except Longest) are safe for concurrent use as documented, so calls of them on package-level variables are not counted as mutation; " +
 			"every other case is one child process under the race detector: 8-64 goroutines that each build their own tables (1-6 columns, 0-6 rows, separators, multi-line / markup / non-ASCII / non-string items, alignment and skipable column properties, built by AddRowItems, NewRow+AddRow, NewRowSizedFor) and render each in csv, json, markdown, html (plain; Id/Class/Caption/TemplateName/row-class generator, rendered twice through the wrapper's cached template), texttable (default decoration, an unknown name, RenderTo) plus the registered decorations by name / by value and auto.Render for the listed styles - all of them for every table in the cases tagged every-table-in-every-format=true, otherwise a third / a quarter per table rotating with (goroutine, table) so that every run still renders every decoration and style concurrently - " +
 			"while 1-8 reader goroutines call RegisteredDecorationNames / Named / auto.ListStyles. Every goroutine's first actions after the start barrier are the same lookups of the six built-in decoration names and renders of a tiny table in each. Cells draw on a small pool of short texts shared by all goroutines, as plain strings and as single-line items declaring a wider display width; some cells hold +Inf/-Inf (encoding/json refuses them part-way down the table); a quarter of the tables record errors (a cell added to a separator row; a render-time callback failing three times) and what t.Errors() and every row's Errors() hold - count, order, and for the harness's own errors their per-table tag - is compared after the first render and at the end; a third of the tables are, between renders, rendered into destinations that fail after 0-51 bytes; the shared text pool holds texts with an emoji presentation selector (U+FE0F) and texts with East-Asian-ambiguous characters; in a fifth of the cases (GOMAXPROCS >= 2) one or two goroutines also own a 1100-row table rendered as texttable; in half of the cases every goroutine, right after its first lookups, goes 5-16 times round a palette of 39 distinct style spellings (the five formats in several capitalisations and with ignored trailing sections, every built-in decoration bare and as texttable.<name>/TextTable.<name>, two names of nothing) through auto.Wrap on tables of its own, each goroutine starting at its own offset, and per spelling the wrapper types (and, every eighth turn, the rendered text) it got are compared with what that exact spelling gives alone. " +
+			"In three quarters of the cases (tag own-decorations-registered-concurrently) the goroutines also WRITE the registry, each under names of its own: the first thing every goroutine does after the start barrier is to register a decoration under a name nobody else uses (decoration.RegisterDecorationName), 3-12 such house styles follow after the first lookups and one more for every other table; each is looked up (Named, also before it is registered and under a name nobody registers), selected on a table of the goroutine's own (SetDecorationNamed + Render, auto.Render with the name, with texttable.<name>, and with a trailing sub-style section so that auto first probes a longer name that is not registered), looked for in RegisteredDecorationNames / auto.ListStyles, every third one is re-registered with another decoration and selected again; the table that got a house style is rendered in it four ways. A name is fresh whenever it is registered (it carries the phase), plain, dotted or upper-case, and is not part of any output. Every goroutine logs what it did about its own names and the answers it got (OpW/OpR/OpL); Coq judges the log against the goroutine's solo run on the registry model (own_ok; by c16_own_oracle_any_schedule what every interleaving gives on the model); after the join every registered name must hold what its goroutine registered last and be listed; the readers' listings must be strictly sorted and may only grow, and only by such names. " +
+			"A watchdog in the child: when nothing (no render, no registry operation of those rounds) has finished for 3 s and a dump of all goroutines shows every goroutine of the run blocked - none running, runnable or sleeping - twice, one second apart, the run is reported as stuck (ok = false) instead of waiting for ever. " +
 			"Reference ('rendered alone'): the same programmes run alone in the same process, twice (before the goroutines in warm cases; in cold cases - half - after them, and then the process does not touch the library or the registry before the goroutines do: built-in names are constants, readers check their own first answers against the registry afterwards); in a third of the cases (8-12 goroutines) each goroutine's reference is instead computed in a pristine child process of its own and the same-process solo run is the correspondence side. Goroutine count, GOMAXPROCS (1..16), tables, iterations vary by seed. " +
 			"A case is non-trivial when at least two goroutines rendered concurrently; distinct = distinct (seed, goroutines, GOMAXPROCS, tables, iterations, readers, formats, outcome)",
 		Exhaustive: "",
@@ -1227,6 +1370,16 @@ func init() {
 					}
 					if s.Storm < 5 {
 						s.Storm = 5
+					}
+				}
+				if i%4 != 0 {
+					// every goroutine also registers decorations of its own while the others run
+					s.Own = 256 / s.G
+					if s.Own > 12 {
+						s.Own = 12
+					}
+					if s.Own < 3 {
+						s.Own = 3
 					}
 				}
 				if i%5 == 2 {
